@@ -161,6 +161,17 @@ func genRawCase(r *vh.Rng) Case {
 					c.Labels = append(c.Labels, "ver:"+g.mutate(v, allowIncompat))
 				}
 			}
+			// a live version that reports no Mutation (or no Query) type at all
+			if r.Chance(14) {
+				root := "Mutation"
+				if r.Chance(12) {
+					root = "Query"
+				}
+				if v.find(root) != nil {
+					removeType(v, root)
+					c.Labels = append(c.Labels, "ver:drop-root-type-"+root)
+				}
+			}
 			if malformed && r.Chance(50) {
 				c.Labels = append(c.Labels, g.malform(v))
 			}
@@ -452,7 +463,7 @@ type obs struct {
 	vs       []*version
 	merged   mergeOut
 	fieldSvc map[fieldKey][]string
-	fedkeys  int // ConvertVersionedSchemas: 1 accepted, 2 refused with 'Invalid federation key', 3 refused with '... is not federated', 0 anything else
+	fedkeys  int // ConvertVersionedSchemas: 1 accepted, 2 refused with 'Invalid federation key', 3 refused with '... is not federated', 4 refused (key configurations: whatever the text), 0 anything else
 	queries  []qobs
 	skip     bool
 }
@@ -682,6 +693,15 @@ func main() {
 					run.Hist("convert:object-not-federated-everywhere")
 				}
 			}
+			// for the federation-key configurations the verdict is classified without reading the error text: the
+			// two validations are the only reasons such a set of schemas can be refused
+			keyFamily := false
+			for _, l := range c.Labels {
+				keyFamily = keyFamily || strings.HasPrefix(l, "federation-keys:")
+			}
+			if keyFamily && cerr != "" && !strings.HasPrefix(cerr, "panic:") {
+				ob.fedkeys = 4
+			}
 			// ---- oracle (h): federation keys.  The verdict of ConvertVersionedSchemas does not depend on how the
 			// services are named; accepted <=> every key field a service asks for is exposed by every root service
 			// of the object; and what is accepted plans into sub-queries the services can answer.
@@ -728,7 +748,8 @@ func main() {
 						v := viol[0]
 						failCapped(run, idx, "convert-accepts-federation-key-a-root-service-lacks", fmt.Sprintf("service %s asks for key %s of %s, root service %s does not expose it; ConvertVersionedSchemas accepts", v.asker, v.key, v.obj, v.root), c)
 					}
-					if ob.fedkeys == 2 && len(viol) == 0 {
+					unf, _ := unfederatedHolders(perSvc, ob.merged.s)
+					if (ob.fedkeys == 2 || (ob.fedkeys == 4 && len(unf) == 0)) && len(viol) == 0 {
 						failCapped(run, idx, "convert-refuses-valid-federation-keys", short(cerr, 300), c)
 					}
 					if len(viol) == 0 {
